@@ -27,6 +27,12 @@ def plan(tier, rnd, units):
     cases = []
     for L in range(1, n + 1):
         for first in range(K):
+            if L >= 4:
+                # split by the first two tokens for load balancing
+                for second in range(K):
+                    pat = ' '.join([str(first), str(second)] + ['s'] * (L - 2))
+                    cases.append({'id': 'len%d-first%d-%d' % (L, first, second), 'label': 'all sequences of %d tokens starting with kinds %d %d' % (L, first, second), 'cfg': {0: pat}})
+                continue
             pat = ' '.join([str(first)] + ['s'] * (L - 1))
             cases.append({'id': 'len%d-first%d' % (L, first), 'label': 'all sequences of %d tokens starting with kind %d' % (L, first), 'cfg': {0: pat}})
     x = str(ID); n1 = str(NUM)
